@@ -5,8 +5,8 @@ package main
 
 import (
 	"fmt"
-	"strconv"
 	"go/token"
+	"strconv"
 	"strings"
 	"unicode/utf8"
 )
